@@ -6,7 +6,7 @@ from xrlcheck import verdict, NCPU
 def run(ctx):
     tier = "quick" if ctx.quick else "thorough"
     if ctx.quick:
-        rnd = random.Random(ctx.seed); zs = sorted(set([26, 82, 35, 92, 47, 64] + rnd.sample(range(11, 99), 10)))
+        rnd = random.Random(ctx.seed); zs = sorted(set([26, 82, 35, 92, 47, 64, 96] + rnd.sample(range(11, 99), 10)))
     else:
         zs = list(range(0, 122))
     res = {}
